@@ -5,6 +5,9 @@ From ACPI Require Import Impl.Madt Impl.Srat Impl.Mcfg Impl.Xsdt Spec.MadtS Spec
   Proofs.MadtRefP Proofs.SratRefP Proofs.MadtWalkRefP Proofs.SratWalkRefP Proofs.McfgWalkRefP Proofs.XsdtWalkRefP.
 From ACPI Require Import Impl.Rhct Impl.Viot Impl.Rimt Impl.Hmat Spec.RhctS Spec.ViotS Spec.RimtS
   Proofs.RhctWalkRefP Proofs.ViotWalkRefP Proofs.RimtWalkRefP Proofs.HmatP Proofs.HmatWalkP.
+From ACPI Require Import Judge Spec.SelfCheck Spec.CedtS Spec.PpttS Spec.HmatS Spec.HestS Spec.RqscS Impl.Cedt Impl.Pptt
+  Proofs.MadtSelfP Proofs.SratSelfP Proofs.McfgSelfP Proofs.XsdtSelfP Proofs.RhctSelfP Proofs.ViotSelfP Proofs.RimtSelfP
+  Proofs.CedtSelfP Proofs.PpttSelfP Proofs.HmatSelfP Proofs.HestSelfP Proofs.RqscSelfP Proofs.SelfModelP.
 Import ListNotations.
 Open Scope N_scope.
 
@@ -160,6 +163,81 @@ Example c03_slit_shape_nonvacuous :
   slit_shape_demo Checked 3 [(0, 3, 1)] = None.
 Proof. repeat split; vm_compute; reflexivity. Qed.
 
+(* ------------------------------------------------------------------------------------------------
+   Per-entry self-consistency.  [c03_self comp img] (Judge.v, Spec/SelfCheck.v) is the second boolean the check evaluates on
+   EVERY image the implementation emits, with or without a reference image: the walk from the table's first-entry offset
+   lands on the end of the image and every entry it finds is consistent with itself -- an entry of a fixed-size type has the
+   specification's size; in a variable-size entry every count / array-offset / string-length field agrees with the entry's
+   own length.  For every history inside the reference's domain it holds of the reference image. *)
+Theorem c03_xsdt_selfcheck : forall ctor ops r, ts_image xsdt_spec ctor ops = Some r -> c03_self 10 r = true.
+Proof. exact xsdt_selfcheck. Qed.
+Theorem c03_mcfg_selfcheck : forall ctor ops r, ts_image mcfg_spec ctor ops = Some r -> c03_self 11 r = true.
+Proof. exact mcfg_selfcheck. Qed.
+Theorem c03_madt_selfcheck : forall ctor ops r, ts_image madt_spec ctor ops = Some r -> c03_self 12 r = true.
+Proof. exact madt_selfcheck. Qed.
+Theorem c03_srat_selfcheck : forall ctor ops r, ts_image srat_spec ctor ops = Some r -> c03_self 13 r = true.
+Proof. exact srat_selfcheck. Qed.
+Theorem c03_hmat_selfcheck : forall ctor ops r, ts_image hmat_spec ctor ops = Some r -> c03_self 15 r = true.
+Proof. exact hmat_selfcheck. Qed.
+Theorem c03_pptt_selfcheck : forall ctor ops r, ts_image pptt_spec ctor ops = Some r -> c03_self 16 r = true.
+Proof. exact pptt_selfcheck. Qed.
+Theorem c03_rhct_selfcheck : forall ctor ops r, ts_image rhct_spec ctor ops = Some r -> c03_self 17 r = true.
+Proof. exact rhct_selfcheck. Qed.
+Theorem c03_rimt_selfcheck : forall ctor ops r, ts_image rimt_spec ctor ops = Some r -> c03_self 18 r = true.
+Proof. exact rimt_selfcheck. Qed.
+Theorem c03_viot_selfcheck : forall ctor ops r, ts_image viot_spec ctor ops = Some r -> c03_self 19 r = true.
+Proof. exact viot_selfcheck. Qed.
+Theorem c03_cedt_selfcheck : forall ctor ops r, ts_image cedt_spec ctor ops = Some r -> c03_self 20 r = true.
+Proof. exact cedt_selfcheck. Qed.
+(* HEST: the observation that follows a stand-alone error structure (ops 20 / 21) shows that structure, not the table; the
+   run-time check exempts exactly those observations ([c03_full_oracle]), and so does the theorem *)
+Theorem c03_hest_selfcheck : forall ctor ops r,
+  ts_image hest_spec ctor ops = Some r -> shows_alone ops = false -> c03_self 21 r = true.
+Proof. exact hest_selfcheck. Qed.
+Theorem c03_rqsc_selfcheck : forall ctor ops r, ts_image rqsc_spec ctor ops = Some r -> c03_self 22 r = true.
+Proof. exact rqsc_selfcheck. Qed.
+
+(* [c03_judge] on the reference images of the tables not covered by [c03_reference_images_tile] *)
+Theorem c03_reference_images_tile_more :
+  (forall ctor ops r, ts_image cedt_spec ctor ops = Some r -> c03_judge cedt_spec ctor r ops = true) /\
+  (forall ctor ops r, ts_image pptt_spec ctor ops = Some r -> c03_judge pptt_spec ctor r ops = true) /\
+  (forall ctor ops r, ts_image hmat_spec ctor ops = Some r -> c03_judge hmat_spec ctor r ops = true) /\
+  (forall ctor ops r, ts_image hest_spec ctor ops = Some r -> c03_judge hest_spec ctor r ops = true) /\
+  (forall ctor ops r, ts_image rqsc_spec ctor ops = Some r -> c03_judge rqsc_spec ctor r ops = true).
+Proof.
+  repeat split; [exact cedt_reference_tiles | exact pptt_reference_tiles | exact hmat_reference_tiles
+                | exact hest_reference_tiles | exact rqsc_reference_tiles].
+Qed.
+
+(* the same self-check on the image the Impl model emits, through the refinement theorems *)
+Theorem c03_model_images_selfcheck :
+  (forall md ctor ops r, ts_image madt_spec ctor ops = Some r -> madt_ops_wf ops -> N.of_nat (length r) < 2 ^ 32 ->
+     exists s0 s, madt_new ctor = Some s0 /\ run_adds madt_addition md s0 ops = Some s /\ c03_self 12 (tbl_image s) = true) /\
+  (forall md ctor ops r, ts_image srat_spec ctor ops = Some r -> srat_ops_wf ops -> N.of_nat (length r) < 2 ^ 32 ->
+     exists s0 s, srat_new ctor = Some s0 /\ run_adds srat_addition md s0 ops = Some s /\ c03_self 13 (tbl_image s) = true) /\
+  (forall md ctor ops r, ts_image mcfg_spec ctor ops = Some r -> N.of_nat (length r) < 2 ^ 32 ->
+     exists s0 s, mcfg_new ctor = Some s0 /\ run_adds mcfg_addition md s0 ops = Some s /\ c03_self 11 (tbl_image s) = true) /\
+  (forall md ctor ops r, ts_image xsdt_spec ctor ops = Some r -> N.of_nat (length r) < 2 ^ 32 ->
+     exists s0 s, xsdt_new ctor = Some s0 /\ run_adds xsdt_addition md s0 ops = Some s /\ c03_self 10 (tbl_image s) = true) /\
+  (forall md ctor ops r, ts_image rhct_spec ctor ops = Some r -> N.of_nat (length r) < 2 ^ 32 ->
+     exists s0 s, rhct_new ctor = Some s0 /\ run_adds rhct_addition md s0 ops = Some s /\ c03_self 17 (tbl_image s) = true) /\
+  (forall md ctor ops r, ts_image viot_spec ctor ops = Some r ->
+     exists s0 s, viot_new ctor = Some s0 /\ run_adds viot_addition md s0 ops = Some s /\ c03_self 19 (tbl_image s) = true) /\
+  (forall md ctor ops r, ts_image rimt_spec ctor ops = Some r -> N.of_nat (length r) < 2 ^ 32 ->
+     exists s0 s, rimt_new ctor = Some s0 /\ run_adds rimt_addition md s0 ops = Some s /\ c03_self 18 (tbl_image s) = true) /\
+  (forall md ctor ops r, ts_image cedt_spec ctor ops = Some r -> N.of_nat (length r) < 2 ^ 32 ->
+     exists s0 s, cedt_new ctor = Some s0 /\ run_adds cedt_addition md s0 ops = Some s /\ c03_self 20 (tbl_image s) = true) /\
+  (forall md ctor ops r, ts_image pptt_spec ctor ops = Some r -> N.of_nat (length r) < 2 ^ 32 ->
+     exists s0 s, pptt_new ctor = Some s0 /\ run_adds pptt_addition md s0 ops = Some s /\ c03_self 16 (tbl_image s) = true) /\
+  (forall md ctor ops r, ts_image hmat_spec ctor ops = Some r -> N.of_nat (length r) < 2 ^ 32 ->
+     exists s0 s, hmat_new ctor = Some s0 /\ run_adds (hmat_addition md) md s0 ops = Some s /\ c03_self 15 (tbl_image s) = true).
+Proof.
+  repeat split; [exact madt_model_selfcheck | exact srat_model_selfcheck | exact mcfg_model_selfcheck
+                | exact xsdt_model_selfcheck | exact rhct_model_selfcheck | exact viot_model_selfcheck
+                | exact rimt_model_selfcheck | exact cedt_model_selfcheck | exact pptt_model_selfcheck
+                | exact hmat_model_selfcheck].
+Qed.
+
 Print Assumptions c03_walker_tiles.
 Print Assumptions c03_tables.
 Print Assumptions c03_reference_images_tile.
@@ -168,3 +246,17 @@ Print Assumptions c03_hmat.
 Print Assumptions c03_rqsc_nested_walk.
 Print Assumptions c03_slit_shape.
 Print Assumptions c03_slit_shape_history.
+Print Assumptions c03_xsdt_selfcheck.
+Print Assumptions c03_mcfg_selfcheck.
+Print Assumptions c03_madt_selfcheck.
+Print Assumptions c03_srat_selfcheck.
+Print Assumptions c03_hmat_selfcheck.
+Print Assumptions c03_pptt_selfcheck.
+Print Assumptions c03_rhct_selfcheck.
+Print Assumptions c03_rimt_selfcheck.
+Print Assumptions c03_viot_selfcheck.
+Print Assumptions c03_cedt_selfcheck.
+Print Assumptions c03_hest_selfcheck.
+Print Assumptions c03_rqsc_selfcheck.
+Print Assumptions c03_reference_images_tile_more.
+Print Assumptions c03_model_images_selfcheck.
